@@ -2,9 +2,11 @@ import Tahoe.Introducer.Lemmas
 /-!
 C34 — Introducer announcements are authentic and fresh.
 
-Statements are about `Tahoe.Introducer.gotStream` / `gotBatch` / `processAnn`, the model of
-`IntroducerClient.got_announcements` (with the repaired batch loop, `fixes/C34-batch-except.diff`)
-and `_process_announcement`, tied to the code by `harness/props/c34.py`.
+Statements are about `Tahoe.Introducer.gotStream` / `gotBatch` / `processAnn` / `gotEvents` /
+`gotStreamS`, the model of `IntroducerClient.got_announcements` (the repaired batch loop:
+`fixes/C34-batch-except.diff`, committed in /repo), `_process_announcement`, `subscribe_to` and of
+`unsign_from_foolscap` with key strings decoded to verifying keys; 11 theorems, tied to the code by
+`harness/props/c34.py`.
 -/
 /-!
 ## Coverage of the statement
